@@ -149,6 +149,12 @@ Proof.
   destruct x; simpl; intro H; auto. apply negb_true_iff in H. rewrite (occ_q_id q H). reflexivity.
 Qed.
 
+Lemma cov_src_m_ok m x : cov_src_m cf A m x = true -> src_total cf A B m x = subst_src A B x.
+Proof.
+  destruct m; simpl; try apply cov_src_ok.
+  destruct x; simpl; intro H; auto. rewrite (cov_q_ok q H). reflexivity.
+Qed.
+
 Lemma occ_join_id j : occ_join A j = false -> subst_join A B j = j.
 Proof.
   destruct j; simpl; intro H; orb_split H.
@@ -161,18 +167,19 @@ Lemma cov_join_ok j : cov_join A j = true -> rep_join A B j = Ok (subst_join A B
 Proof.
   destruct j; simpl; intro H.
   - destruct (vis KJoin S_item).
-    + destruct (c_join_by_call cf).
+    + destruct (c_src_mode cf KJoin) eqn:M.
       * destruct item; simpl.
         -- rewrite H. reflexivity.
         -- rewrite (cov_q_ok q H). reflexivity.
         -- rewrite H. reflexivity.
-      * rewrite (cov_src_ok item H). reflexivity.
+      * pose proof (cov_src_m_ok MCmp item H) as E. simpl in E. rewrite E. reflexivity.
+      * pose proof (cov_src_m_ok MCmpEnter item H) as E. simpl in E. rewrite E. reflexivity.
     + apply negb_true_iff in H. rewrite (occ_src_id item H). reflexivity.
   - andb_split H.
-    rewrite (ifv_ok _ _ _ (cmp_src A B) (subst_src A B) item H (cov_src_ok item) (occ_src_id item)).
+    rewrite (ifv_ok _ _ _ (src_total cf A B (c_src_mode cf KJoinOn)) (subst_src A B) item H (cov_src_m_ok _ item) (occ_src_id item)).
     rewrite (ifv_ok _ _ _ (rep_wt A B) (subst_wt A B) crit H0 (cov_wt_ok crit) (occ_wt_id crit)). reflexivity.
   - andb_split H.
-    rewrite (ifv_ok _ _ _ (cmp_src A B) (subst_src A B) item H (cov_src_ok item) (occ_src_id item)).
+    rewrite (ifv_ok _ _ _ (src_total cf A B (c_src_mode cf KJoinUsing)) (subst_src A B) item H (cov_src_m_ok _ item) (occ_src_id item)).
     rewrite (ifv_ok _ _ _ (map rep) (map subst) fields H0 (covs_ok fields) (occs_id fields)). reflexivity.
 Qed.
 
@@ -225,7 +232,7 @@ Proof.
   match goal with Hx : (if vis _ S__with then _ else _) = true |- _ => rewrite (rep_withs_ok s Hx) end.
   match goal with Hx : (if vis _ S__joins then _ else _) = true |- _ => rewrite (rep_joins_ok s Hx) end.
   apply f_equal. unfold Replace.rep_stmt_core, subst_stmt. cbv zeta. apply stmt_ext; try reflexivity.
-  - slot S__from; [apply map_ext_forallb; apply cov_src_ok | apply map_id_existsb; apply occ_src_id].
+  - slot S__from; [apply map_ext_forallb; apply cov_src_m_ok | apply map_id_existsb; apply occ_src_id].
   - slot S__insert_table; [reflexivity | apply subst_otbl_id].
   - slot S__update_table; [reflexivity | apply subst_otbl_id].
   - slot S__selects; [apply cov_ws_ok | apply occ_ws_id].
